@@ -14,8 +14,9 @@ the statement is silent or can be read two ways are accepted under every reading
 * a tilde in a text lookup value that is not followed by ? or * (followed by another character,
   by another tilde, or at the end): the tilde is literal, or it escapes the next character;
 * a blank cell delivered by VLOOKUP/HLOOKUP/LOOKUP/INDEX: None or 0;
-* an out-of-range index: #REF! or #VALUE!, whichever; when the lookup value is missing as well
-  #N/A too; an error lookup value with an out-of-range index: either error.
+* an out-of-range index: #REF! or #VALUE!, whichever (also when the lookup value is missing: the statement
+  gives these two codes for out-of-range indices, and Excel judges the index first); LOOKUP with a result
+  vector that is too short: #N/A too; an error lookup value with an out-of-range index: either error.
 
 `firm` is False for inputs the statement does not cover at all (blank lookup value; error cells or
 interior blanks in data searched with match type +-1; data not sorted; text outside [0-9A-Za-z]
@@ -349,6 +350,10 @@ def vlookup_model(v, t, idx, exact):
         acc += [REF, VALUE]
     for p in pos:
         if isinstance(p, str):
+            if p == NA and not in_range and kind(v) != 'err':
+                # "out-of-range indices yield #REF!/#VALUE!": the index is judged before the search (as Excel
+                # does), a lookup value that is missing as well does not turn the answer into #N/A
+                continue
             acc.append(p)             # #N/A or the propagated error lookup value
         elif in_range:
             acc.append(t[p - 1][i - 1])
